@@ -8,11 +8,10 @@
 
 use crate::bcodec::bencoder::BEncoder;
 use crate::bcodec::bvalue::BValue;
-use crate::bcodec::raw_finder::RawFinder;
 use crate::constants::{HASH_SIZE, PIECE_LENGTH};
 use crate::hashmap;
 use crate::Error;
-use crate::{BDecoder, DeepFinder};
+use crate::BDecoder;
 use sha1_smol;
 use std::collections::HashMap;
 use std::convert::{TryFrom, TryInto};
@@ -148,9 +147,9 @@ impl Metainfo {
         }
 
         let mut err = Err(Error::MetaDataMissing);
-        for val in bvalues {
+        for (idx, val) in bvalues.into_iter().enumerate() {
             match val {
-                BValue::Dict(dict) => match Self::parse(data, &dict) {
+                BValue::Dict(dict) => match Self::parse(data, idx, &dict) {
                     Ok(torrent) => return Ok(torrent),
                     Err(e) => err = Err(e),
                 },
@@ -161,7 +160,7 @@ impl Metainfo {
         err
     }
 
-    fn parse(data: &[u8], dict: &HashMap<Vec<u8>, BValue>) -> Result<Metainfo, Error> {
+    fn parse(data: &[u8], idx: usize, dict: &HashMap<Vec<u8>, BValue>) -> Result<Metainfo, Error> {
         let length = Self::find_length(dict);
         let multi_files = Self::find_files(dict);
 
@@ -189,7 +188,7 @@ impl Metainfo {
             piece_length: Self::find_piece_length(dict)?,
             pieces: Self::find_pieces(dict)?,
             files,
-            info_hash: Self::calculate_hash(data)?,
+            info_hash: Self::calculate_hash(data, idx)?,
         };
 
         Ok(metainfo)
@@ -295,14 +294,62 @@ impl Metainfo {
             .collect()
     }
 
-    fn calculate_hash(data: &[u8]) -> Result<[u8; HASH_SIZE], Error> {
-        if let Some(info) = DeepFinder::find_first("4:info", data) {
+    fn calculate_hash(data: &[u8], idx: usize) -> Result<[u8; HASH_SIZE], Error> {
+        if let Some(info) = Self::raw_info(data, idx) {
             let mut hasher = sha1_smol::Sha1::new();
-            hasher.update(info.as_ref());
+            hasher.update(info);
             return Ok(hasher.digest().bytes());
         }
 
         Err(Error::InfoMissing)
+    }
+
+    /// Exact bytes of the value stored under the "info" key of the `idx`-th top-level value
+    /// (a dictionary). Keys spelled "info" nested in other values are not taken into account.
+    fn raw_info(data: &[u8], idx: usize) -> Option<&[u8]> {
+        let mut pos = 0;
+        for _ in 0..idx {
+            pos = Self::value_end(data, pos)?;
+        }
+
+        if *data.get(pos)? != b'd' {
+            return None;
+        }
+
+        let mut info = None;
+        pos += 1;
+        while *data.get(pos)? != b'e' {
+            let first = data.get(pos)?;
+            let mut it = data[pos..].iter().enumerate();
+            it.next();
+            let (key, raw_key) = BDecoder::parse_byte_str(&mut it, pos, first).ok()?;
+            let value_start = pos + raw_key.len();
+            pos = Self::value_end(data, value_start)?;
+            if key == b"info" {
+                info = Some(&data[value_start..pos]);
+            }
+        }
+
+        info
+    }
+
+    /// Position just after the bencoded value which starts at `pos`.
+    fn value_end(data: &[u8], pos: usize) -> Option<usize> {
+        let first = data.get(pos)?;
+        let mut it = data[pos..].iter().enumerate();
+        it.next();
+        match first {
+            b'0'..=b'9' => Some(pos + BDecoder::parse_byte_str(&mut it, pos, first).ok()?.1.len()),
+            b'i' => Some(pos + BDecoder::parse_int(&mut it, pos).ok()?.1.len()),
+            b'l' | b'd' => {
+                let mut pos = pos + 1;
+                while *data.get(pos)? != b'e' {
+                    pos = Self::value_end(data, pos)?;
+                }
+                Some(pos + 1)
+            }
+            _ => None,
+        }
     }
 
     /// Return URL of the tracker
